@@ -21,7 +21,9 @@ ARG_EXPR = {INT: '1', STR: '"s"', FLT: '1.5', BOOL: 'true', nat('Sequence', INT)
             comp('Z'): 'Z(1)', tup(INT, STR): '(1, "s")', nat('Sequence', nat('Sequence', INT)): '[[1]]', comp('P', INT, STR): 'P(1, "s")',
             nat('Mapping', INT, STR): 'mapping<int>().set(1, "s")'}
 F0, F1, F2, F12 = fn(0, [], INT), fn(1, [INT], INT), fn(2, [INT, INT], INT), fn(1, [INT, INT], INT)
-ARG_POOL += [F0, F1, F2, F12]
+UNIT = tup()
+ARG_POOL += [F0, F1, F2, F12, UNIT]
+ARG_EXPR[UNIT] = '()'
 ARG_EXPR.update({F0: '(()->{5})', F1: '((x: int)->{x})', F2: '((x: int, y: int)->{x})', F12: '((x: int, y: int ?= 2)->{x})'})
 PRELUDE = 'struct P<A,B>(a: A, b: B)\nstruct Z(n: int)\n'
 
@@ -29,7 +31,7 @@ PRELUDE = 'struct P<A,B>(a: A, b: B)\nstruct Z(n: int)\n'
 def param_pool(g1, g2):
     a, b = gen(g1), gen(g2)
     return [INT, INT, STR, FLT, nat('Sequence', INT), comp('Z'), a, a, nat('Sequence', a), nat('Optional', a), tup(a, b), comp('P', a, b), b, nat('Sequence', nat('Sequence', a)),
-            nat('Mapping', a, b), F0, F1, F1, F2, fn(1, [a], INT), fn(1, [INT], a)]
+            nat('Mapping', a, b), F0, F1, F1, F2, fn(1, [a], INT), fn(1, [INT], a), UNIT]
 
 
 def default_expr(t):
@@ -220,6 +222,19 @@ class C05(PropertyCheck):
             fterms.append(f'obs_resolve [{"; ".join(o.coq() for o in vis_inner)}] [] {clist(args_a)}')
             fterms.append(f'obs_resolve [{"; ".join(o.coq() for o in ovs)}] [] {clist(args_b)}')
             fmeta.append({'forward': a.tag, 'caller': b.tag, 'inner_arguments': [x.show() for x in args_a], 'outer_arguments': [x.show() for x in args_b]})
+        # ---------- family 2b: a nested function whose recursive call competes with a same-named overload of an enclosing scope
+        rjobs, rterms, rmeta = [], [], []
+        for ri in range(20 if tier == 'quick' else 200):
+            sig = [rng.choice(simple[:5]) for _ in range(rng.choice([1, 1, 2]))]
+            other = [rng.choice(simple[:5]) for _ in range(len(sig))] if rng.random() < 0.5 else list(sig)
+            outer_o, inner_o = Ov(1, other, len(other), 0), Ov(2, sig, len(sig), 1)
+            args = inst_args(inner_o)
+            ps = ', '.join(f'p{i}: {p_.xr()}' for i, p_ in enumerate(sig))
+            call = 'ov(' + ', '.join(ARG_EXPR[x] for x in args) + ')'
+            src = (PRELUDE + outer_o.decl('ov') + f'\nfn c0() -> str {{\nfn ov({ps}) -> str {{ if(false, {call}, "#tag2#") }}\n"never calls ov"\n}}\n')
+            rjobs.append({'id': f'r{ri}', 'src': src, 'calls': ['c0']})
+            rterms.append(f'obs_resolve [{outer_o.coq()}; {inner_o.coq()}] [] {clist(args)}')
+            rmeta.append({'outer': outer_o.decl('ov'), 'inner_signature': ps, 'recursive_call': call})
         # ---------- family 3: comparison operators are dynamic functions that look up the user's cmp overloads
         ojobs, oterms, ometa = [], [], []
         ctypes = [comp('Z'), INT, STR, comp('P', INT, STR), nat('Sequence', INT), gen('T')]
@@ -286,7 +301,7 @@ class C05(PropertyCheck):
         table_jobs = []
         for a in ARG_POOL:
             table_jobs.append({'id': 'lib' + a.show(), 'src': PRELUDE + f'fn c0() -> str {{ to_str({ARG_EXPR[a]}) }}', 'calls': ['c0']})
-        res = core.run_harness(ctx['binary'], jobs + table_jobs + fjobs + ojobs + ejobs, os.path.join(workdir, 'h'), timeout=600)
+        res = core.run_harness(ctx['binary'], jobs + table_jobs + fjobs + ojobs + ejobs + rjobs, os.path.join(workdir, 'h'), timeout=600)
         for a in ARG_POOL:
             r = res['lib' + a.show()]
             has = r.get('compile') == 'ok'
@@ -339,6 +354,18 @@ class C05(PropertyCheck):
                                    'case': {'src': job['src'], **mt}, 'impl': got if got != 'rejected' else c, 'model': f'inner call: {inner}; outer call: {outer}; expected {want}'})
             else:
                 distinct.add(('forward', k))
+        rmodel = core.coq_eval(rterms, self.imports, os.path.join(workdir, 'coqr'), shard_size=300, timeout=600)
+        for job, m, mt in zip(rjobs, rmodel, rmeta):
+            r = res.get(job['id'])
+            n_eval += 1
+            c = r.get('compile') or ''
+            got = 'accepted' if c == 'ok' else ('ambiguous' if '[AmbiguousOverload]' in c else ('none' if '[NoOverload]' in c else 'bad:' + c[:200]))
+            want = 'accepted' if m.startswith('chosen') else m.split(':')[0]
+            if got != want:
+                violations.append({'what': 'the recursive call inside a nested function is not resolved against all visible overloads of the name (an equally ranked overload of an enclosing scope must make it ambiguous)',
+                                   'case': {'src': job['src'], **mt}, 'impl': got if got != 'accepted' else 'compiles', 'model': m})
+            else:
+                distinct.add(('rec', job['id']))
         omodel = core.coq_eval(oterms, self.imports, os.path.join(workdir, 'coqo'), shard_size=300, timeout=600)
         for job, m, mt in zip(ojobs, omodel, ometa):
             r = res.get(job['id'])
